@@ -73,3 +73,7 @@ claim("C04", "exhaustive enumeration of rule x slot renaming x variable assignme
       "14 rules (repeated variables, nested nodes, free/bound pattern slots, nested binders) x every injective renaming of the pattern's free slots into a 4 (thorough 5) name pool x every assignment of pattern variables to 7-11 small terms x every presentation (literal; every proper sub-term replaced by every same-free-slot alternative + union, incl. permuted copies that give the child class a symmetry; pairs of replacements). After one apply_rewrites the right-side instance must be represented and eq to the left-side instance. E-graphs with a redundant slot are out of scope and counted.",
       "Scope restrictions of the statement are enforced by construction and re-checked at run time (redundant slot => skipped).",
       "DESIGN.md 5 C04")
+claim("C07", "bounded-exhaustive enumeration of justified-union histories in the `explanations` build; every oracle-equal pair explained and every proof DAG re-checked node by node by an independent term-level checker",
+      "All multisets of <=3 (thorough 4) union/insert operations over alphabets with 3-cycles, all permutations of a 4-slot leaf, redundancy, self-reference, binders and shared slots, every ordering, executed with union_justified and one label per asserted equation. For every pair of tracked (sub)terms x relative naming that the congruence-closure oracle says equal: explain_equivalence returns; every reflexivity/symmetry/transitivity/congruence step is re-derived on terms (get_syn_expr) up to renamings injective on each side of each premise; every explicit leaf is the user's invocation pair for that label up to renaming; the root concludes the queried equation. Thorough also runs with the crate's internal checks.",
+      "Only justified unions are driven (no rule-application leaves); leaves are compared as class invocations because union_justified takes invocations, all other steps as terms.",
+      "DESIGN.md 5 C07")
